@@ -12,13 +12,13 @@ CLAIMS = {
         "note": "Small-constant build (BUFFER_SIZE=8, MAX_BUFFER_SIZE=32). The frame half uses a decoder that takes nothing from the document (verdict = the slice handed to serde_json::from_slice is all JSON whitespace; any other byte is a decode error), because serde_json's value parsers do not fit the solver (DESIGN 12.6): what is decided is zlink's framing (which slice is decoded, where the cursors go), not JSON decoding of requested shapes. Histories of receives are covered by induction over steps (prose); receive_call/receive_reply are thin wrappers over read_message and are not themselves in the formula. Stubs: fmt, tracing level, serde_json error positions, memchr loop crate. Scripted read halves honour the ReadHalf contract.",
     },
     "C02": {
-        "text": "Bounded model checking of the real WriteConnection::enqueue / enqueue_call / flush / send_* from concrete (buffer length, fill position) states of the "
+        "text": "Bounded model checking of the real WriteConnection::enqueue / enqueue_call / flush from concrete (buffer length, fill position) states of the "
                 "small-constant build with symbolic messages: the buffer receives exactly the expected document bytes plus one NUL at the fill position, earlier bytes untouched, "
                 "position advanced by len+1; a refused serialization contributes nothing and the connection stays usable; flush writes exactly the filled prefix in one write "
                 "(none when empty) and resets the position only after the write. Each instance is one inductive step; the family covers every (len,pos) in the thorough tier, and fixed-size messages behind arbitrary earlier bytes cover a document ending one byte before, exactly at and one byte after the buffer end for every buffer length.",
         "design_ref": "DESIGN.md section 3 (C02)",
         "note": "Small-constant build; messages: Call<Empty> with 8 flag sets, Reply<()> with 3 continues values, Reply<&str> of one symbolic ASCII char, an unserializable value. "
-                "Histories are covered by induction over steps (prose), each step is a solver verdict. send_call/send_reply/send_error (enqueue + flush, a 2-deep coroutine nest) are decided in the 128/128 build only (in the small build the grow-and-retry loop keeps symbolic execution from finishing). Stubs as listed in the evidence.",
+                "Histories are covered by induction over steps (prose), each step is a solver verdict. send_call/send_reply/send_error are literally `enqueue; flush().await`; as a 2-deep coroutine nest they produced no verdict (three fresh-connection instances in the 128/128 build stay in the thorough tier and are reported INCONCLUSIVE when they hit their cap): that a send is its enqueue followed by its flush is read from the code, both halves are decided separately. In the last full thorough run 337 of 344 instances verified; the 7 without a verdict are those 3 and the 4 `enqueue_str_at` instances (symbolic escape length, 25 min cap). Stubs as listed in the evidence.",
     },
     "C03": {
         "text": "Differential bounded model checking: zlink's to_slice and the real serde_json::to_writer run on the same symbolic value inside one formula, for every buffer "
